@@ -13,7 +13,7 @@ PROP = dict(
                        "no_crash (the child process survived: no fatal error, no out-of-memory)"]),
     ],
     partial="The theorems cover ZENO'S OWN byte-level code only (hasFileExtension, isLikelyJSON, GetShortID, the Link header parser, "
-            "extractFromScriptContent, the srcset splitting, the nil-safety of postprocessItem / extractAssets / extractOutlinks under the "
+            "extractFromScriptContent, srcsetURLs, the nil-safety of postprocessItem / extractAssets / extractOutlinks under the "
             "archiver's invariant). Third-party decoders (x/net/html via goquery, encoding/json, encoding/xml, grafov/m3u8, pdfcpu, mimetype, "
             "xurls, fasturl, ada) are NOT modelled: for them the check is structure-aware fuzzing in isolated child processes (the `fuzz` leg), "
             "which is a search and not a proof - a silent run only says that no crasher was among this run's generated inputs. "
